@@ -130,6 +130,28 @@ func runC09(c *Ctx) {
 	c.Guard(r5, acl, "authenticator's WELCOME returned", `^return:call:invoke:auth\.Authenticator\.Authenticate\[.*#0, nil$`, 1,
 		clause("authenticator returned no error", T(`^\(call:invoke:auth\.Authenticator\.Authenticate\[.*\]\(%sid, %details, %client\)#1 == nil\)$`)),
 		clause("an authenticator for an offered method exists", F(`^\(call:router\.\(\*realm\)\.getAuthenticator\(.*\)#0 == nil\)$`)))
+	// the method name reported (and stored as authmethod) is the very key under which the authenticator was found
+	if fn := c.Fn(r5, rlm+"getAuthenticator$1"); fn != nil {
+		var key, meth []string
+		kre, mre := re(`^store:\^auth=\^r\.authenticators\[(.*)\],ok#0$`), re(`^store:\^authMethod=(.*)$`)
+		var at ssa.Instruction
+		for _, in := range ir.Instrs(fn) {
+			d := ir.InstrDesc(in)
+			if m := kre.FindStringSubmatch(d); m != nil {
+				key = append(key, m[1])
+				at = in
+			}
+			if m := mre.FindStringSubmatch(d); m != nil {
+				meth = append(meth, m[1])
+			}
+		}
+		if len(key) != 1 || len(meth) != 1 {
+			c.R.Unknown(r5, rlm+"getAuthenticator$1", "authenticator selected and its method name recorded", c.P.FuncPos(fn), fmt.Sprintf("expected one store of the authenticator and one of its method name, found %d and %d", len(key), len(meth)))
+		} else {
+			c.R.Check(key[0] == meth[0], r5, rlm+"getAuthenticator$1", "reported method name is the key the authenticator was looked up under", c.pos(at),
+				"the authenticator is looked up under "+key[0]+" but the method reported to the client and stored as authmethod is "+meth[0])
+		}
+	}
 	ruleSessionDetailsOrder(c, r5)
 	c.Has(r5, ac, "session details stored on the session", `^store:call:wamp\.NewSession\(.*\)\.&Details=makemap\(wamp\.Dict\)$`, 1)
 	c.Before(r5, ac, "details complete before the session is handed to the realm", `^store:call:wamp\.NewSession\(.*\)\.&Details=makemap\(wamp\.Dict\)$`, hs)
@@ -155,6 +177,17 @@ func checkAuthenticator(c *Ctx, rule, fname string, fn *ssa.Function) {
 	if len(succ) == 0 {
 		c.R.Unknown(rule, fname, "success return", c.P.FuncPos(fn), "no `return welcome, nil` found")
 		return
+	}
+	// the key store's OnWelcome hook announces a successful authentication: it is a success point like the return
+	nret := len(succ)
+	for _, in := range matches(fn, `^call:invoke:auth\.BypassKeyStore\.OnWelcome\[`) {
+		succ = append(succ, in)
+	}
+	what := func(i int) string {
+		if i < nret {
+			return fmt.Sprintf("success return %d", i)
+		}
+		return fmt.Sprintf("OnWelcome hook %d", i-nret)
 	}
 	// WELCOME details keys
 	for _, in := range ir.Instrs(fn) {
@@ -192,7 +225,7 @@ func checkAuthenticator(c *Ctx, rule, fname string, fn *ssa.Function) {
 			g1, _ := ir.GuardedBy(fn, s, clause("bypass or ticket equals the stored one",
 				bypass.Edges[0], T(`^\(call:wamp\.RecvTimeout\(%client, .*\)#0\.\(\*wamp\.Authenticate\),ok#0\.Signature == conv:string\(phi\(call:invoke:auth\.KeyStore\.AuthKey\[`)))
 			g2, _ := ir.GuardedBy(fn, s, clause("bypass or a ticket is stored for the authid", bypass.Edges[0], F(`^\((phi\()?call:invoke:auth\.KeyStore\.AuthKey\[.* == nil\)$`), F(`^\(nil == nil\)$`)))
-			c.R.Check(g1 && g2, rule, fname, fmt.Sprintf("success return %d guarded by ticket comparison", i), c.pos(s), "WELCOME is returned on a path that does not compare the client's ticket with the stored one")
+			c.R.Check(g1 && g2, rule, fname, what(i)+" guarded by ticket comparison", c.pos(s), "WELCOME is returned (or the key store told the client is welcome) on a path that does not compare the client's ticket with the stored one")
 		}
 		return
 	}
@@ -253,7 +286,7 @@ func checkAuthenticator(c *Ctx, rule, fname string, fn *ssa.Function) {
 	vd := regexpQuote(ir.Desc(verify))
 	for i, s := range succ {
 		g, _ := ir.GuardedBy(fn, s, clause("bypass or verification succeeded", bypass.Edges[0], T(`^`+vd+`(#0)?$`)))
-		c.R.Check(g, rule, fname, fmt.Sprintf("success return %d guarded by the verification result", i), c.pos(s), "WELCOME is returned on a path on which the verification result is not true")
+		c.R.Check(g, rule, fname, what(i)+" guarded by the verification result", c.pos(s), "WELCOME is returned (or the key store told the client is welcome) on a path on which the verification result is not true")
 	}
 	// the verifier really uses the challenge parameter (for in-module verifiers)
 	if vf := verify.Call.StaticCallee(); vf != nil && ir.ShortName(vf) != "" && vf.Blocks != nil {
